@@ -454,7 +454,7 @@ End AfterModifier.
 Definition ex_env : menv :=
   {| max_field_chars := 640;
      urn_normalize := fun u => u; urn_valid := fun _ => true; urn_identity := fun u => u; urn_scheme := fun _ => 1;
-     urn_set_channel := fun _ u => u; tel_scheme := 1;
+     urn_set_channel := fun _ u => u; urn_channel := fun _ => None; tel_scheme := 1;
      chan_can_send := fun _ => true; chan_supports := fun _ _ => true;
      field_types := [FText];
      parse_num := fun _ => None; parse_dt := fun _ => None; parse_loc := fun _ _ _ => ([], [], []);
